@@ -1570,6 +1570,14 @@ static void *peg_unmarshal(JanetMarshalContext *ctx) {
     size_t bytecode_len = janet_unmarshal_size(ctx);
     uint32_t num_constants = (uint32_t) janet_unmarshal_int(ctx);
 
+    /* Every bytecode word and every constant takes at least one byte of input, so a count that
+     * exceeds the remaining input is bogus (and must not be used to size the allocation). */
+    if (bytecode_len == 0 || bytecode_len > INT32_MAX || num_constants > INT32_MAX) {
+        janet_panic("invalid peg bytecode");
+    }
+    janet_unmarshal_ensure(ctx, bytecode_len - 1);
+    janet_unmarshal_ensure(ctx, bytecode_len - 1 + num_constants);
+
     /* Calculate offsets. Should match those in make_peg */
     size_t bytecode_start = size_padded(sizeof(JanetPeg), sizeof(uint32_t));
     size_t bytecode_size = bytecode_len * sizeof(uint32_t);
@@ -1616,8 +1624,13 @@ static void *peg_unmarshal(JanetMarshalContext *ctx) {
         uint32_t instr = bytecode[i];
         uint32_t *rule = bytecode + i;
         op_flags[i] |= 0x02;
+        /* An instruction of n words must lie inside the bytecode before its operands are read */
+#define PEG_NEED(n) do { if (blen - i < (uint32_t) (n)) goto bad; } while (0)
         switch (instr) {
             case RULE_LITERAL:
+                PEG_NEED(2);
+                if (rule[1] > blen * 4) goto bad;
+                PEG_NEED(2 + ((rule[1] + 3) >> 2));
                 i += 2 + ((rule[1] + 3) >> 2);
                 break;
             case RULE_NCHAR:
@@ -1640,6 +1653,7 @@ static void *peg_unmarshal(JanetMarshalContext *ctx) {
                 break;
             case RULE_LOOK:
                 /* [offset, rule] */
+                PEG_NEED(3);
                 if (rule[2] >= blen) goto bad;
                 op_flags[rule[2]] |= 0x1;
                 i += 3;
@@ -1648,7 +1662,10 @@ static void *peg_unmarshal(JanetMarshalContext *ctx) {
             case RULE_SEQUENCE:
                 /* [len, rules...] */
             {
+                PEG_NEED(2);
                 uint32_t len = rule[1];
+                if (len > blen) goto bad;
+                PEG_NEED(2 + len);
                 for (uint32_t j = 0; j < len; j++) {
                     if (rule[2 + j] >= blen) goto bad;
                     op_flags[rule[2 + j]] |= 0x1;
@@ -1660,6 +1677,7 @@ static void *peg_unmarshal(JanetMarshalContext *ctx) {
             case RULE_IFNOT:
             case RULE_LENPREFIX:
                 /* [rule_a, rule_b (b if not a)] */
+                PEG_NEED(3);
                 if (rule[1] >= blen) goto bad;
                 if (rule[2] >= blen) goto bad;
                 op_flags[rule[1]] |= 0x01;
@@ -1668,6 +1686,7 @@ static void *peg_unmarshal(JanetMarshalContext *ctx) {
                 break;
             case RULE_BETWEEN:
                 /* [lo, hi, rule] */
+                PEG_NEED(4);
                 if (rule[3] >= blen) goto bad;
                 op_flags[rule[3]] |= 0x01;
                 i += 4;
@@ -1683,11 +1702,13 @@ static void *peg_unmarshal(JanetMarshalContext *ctx) {
                 break;
             case RULE_CONSTANT:
                 /* [constant, tag] */
+                PEG_NEED(3);
                 if (rule[1] >= clen) goto bad;
                 i += 3;
                 break;
             case RULE_CAPTURE_NUM:
                 /* [rule, base, tag] */
+                PEG_NEED(4);
                 if (rule[1] >= blen) goto bad;
                 op_flags[rule[1]] |= 0x01;
                 i += 4;
@@ -1697,6 +1718,7 @@ static void *peg_unmarshal(JanetMarshalContext *ctx) {
             case RULE_CAPTURE:
             case RULE_UNREF:
                 /* [rule, tag] */
+                PEG_NEED(3);
                 if (rule[1] >= blen) goto bad;
                 op_flags[rule[1]] |= 0x01;
                 i += 3;
@@ -1704,6 +1726,7 @@ static void *peg_unmarshal(JanetMarshalContext *ctx) {
             case RULE_REPLACE:
             case RULE_MATCHTIME:
                 /* [rule, constant, tag] */
+                PEG_NEED(4);
                 if (rule[1] >= blen) goto bad;
                 if (rule[2] >= clen) goto bad;
                 op_flags[rule[1]] |= 0x01;
@@ -1713,6 +1736,7 @@ static void *peg_unmarshal(JanetMarshalContext *ctx) {
             case RULE_TIL:
             case RULE_SPLIT:
                 /* [rule, rule] */
+                PEG_NEED(3);
                 if (rule[1] >= blen) goto bad;
                 if (rule[2] >= blen) goto bad;
                 op_flags[rule[1]] |= 0x01;
@@ -1726,17 +1750,20 @@ static void *peg_unmarshal(JanetMarshalContext *ctx) {
             case RULE_TO:
             case RULE_THRU:
                 /* [rule] */
+                PEG_NEED(2);
                 if (rule[1] >= blen) goto bad;
                 op_flags[rule[1]] |= 0x01;
                 i += 2;
                 break;
             case RULE_READINT:
                 /* [ width | (signedness << 4) | (endianness << 5), tag ] */
+                PEG_NEED(3);
                 if ((rule[1] & ~0x30u) > JANET_MAX_READINT_WIDTH) goto bad;
                 i += 3;
                 break;
             case RULE_NTH:
                 /* [nth, rule, tag] */
+                PEG_NEED(4);
                 if (rule[2] >= blen) goto bad;
                 op_flags[rule[2]] |= 0x01;
                 i += 4;
@@ -1745,6 +1772,8 @@ static void *peg_unmarshal(JanetMarshalContext *ctx) {
                 goto bad;
         }
     }
+
+#undef PEG_NEED
 
     /* last instruction cannot overflow */
     if (i != blen) goto bad;
